@@ -2,6 +2,7 @@
 C03 — Decompress rebuilds the packet from any well-formed SCHC packet.
 -/
 import Schc.Proofs.Decompress2
+import Schc.Proofs.SortUnique
 
 namespace Schc
 
@@ -16,6 +17,19 @@ theorem C03_decompress (r : Rule) (vs : List Bits) (h : AllAdm r.fields vs) (pay
       decompressToFields ⟨r.id.bits ++ res ++ payload, side⟩ r
         = runComputes (sortEntries (computeEntries r.fields 0)) (assemble r.fields vs ++ [(Gen.payloadId, ⟨payload, side⟩)]) :=
   decompressToFields_spec r vs h payload side
+
+/-- … and "regenerated" does not depend on the sorting algorithm: where `compute_function_sort` orders the rule's compute
+    entries consistently (`Rule.orderOk`, tested by the model driver), the compute functions run in the order of ANY
+    permutation of the entries that is sorted for the comparator — `list.sort` is only assumed to sort -/
+theorem C03_decompress_any_sort (r : Rule) (vs : List Bits) (h : AllAdm r.fields vs) (hok : r.orderOk = true) (payload : Bits) (side : Pad)
+    (p : List ComputeEntry) (hp : p.Perm (computeEntries r.fields 0)) (hs : p.Pairwise entryLt) :
+    ∃ res, residuesV r.fields vs = some res ∧
+      decompressToFields ⟨r.id.bits ++ res ++ payload, side⟩ r
+        = runComputes p (assemble r.fields vs ++ [(Gen.payloadId, ⟨payload, side⟩)]) := by
+  have hu : p = sortEntries (computeEntries r.fields 0) :=
+    sort_unique _ (orderedB_sound _ (by rw [← entriesOf_eq]; exact hok)) (computeEntries_nodup _ _) p hp hs
+  rw [hu]
+  exact C03_decompress r vs h payload side
 
 /-- without compute fields the result is, bit for bit, the values in rule order followed by the payload (right-padded) -/
 theorem C03_decompress_nocompute (r : Rule) (vs : List Bits) (h : AllAdm r.fields vs) (hnc : ∀ rf ∈ r.fields, rf.cda ≠ .compute)
